@@ -49,6 +49,7 @@ type Step struct {
 	Prefix string `json:"prefix,omitempty"`
 	N      int    `json:"n,omitempty"`
 	Strong bool   `json:"strong,omitempty"`
+	Lazy   bool   `json:"lazy,omitempty"` // restore: the closed watches are not released by their owners until later
 }
 
 type Plan struct {
@@ -115,7 +116,7 @@ func (World) Generate(rng *rand.Rand, tier string, runIdx uint64) simkit.Plan {
 		case 9:
 			p.Steps = append(p.Steps, Step{Op: "snapshot"})
 		case 10:
-			p.Steps = append(p.Steps, Step{Op: "restore"})
+			p.Steps = append(p.Steps, Step{Op: "restore", Lazy: simkit.Chance(rng, 50)})
 		}
 	}
 	return p
@@ -207,6 +208,7 @@ func (World) execute(p *Plan, r *simkit.Run) *simkit.Violation {
 	var snapBytes [][]byte
 	var snapModel map[string]*mres
 	haveSnap := false
+	var zombies []storage.Watch
 	defer func() {
 		cancel()
 		store.VerifCloseAll()
@@ -214,6 +216,9 @@ func (World) execute(p *Plan, r *simkit.Run) *simkit.Violation {
 			if w.w != nil {
 				w.w.Close()
 			}
+		}
+		for _, z := range zombies {
+			z.Close()
 		}
 		synctest.Wait()
 	}()
@@ -499,6 +504,10 @@ func (World) execute(p *Plan, r *simkit.Run) *simkit.Violation {
 			sw := w.w
 			go func() { ev, err := sw.Next(ctx); ch <- wres{ev, err} }()
 		case "wclose":
+			if len(zombies) > 0 {
+				zombies[0].Close()
+				zombies = zombies[1:]
+			}
 			if w := watchers[s.W]; w != nil && w.w != nil {
 				w.w.Close()
 				synctest.Wait()
@@ -601,7 +610,13 @@ func (World) execute(p *Plan, r *simkit.Run) *simkit.Violation {
 				if !closed {
 					return mk("watch-order", "restore-closes-watches", fmt.Sprintf("watch %d keeps delivering events after a restore", w.id))
 				}
-				w.w.Close()
+				if s.Lazy {
+					// the owner has seen ErrWatchClosed but has not called Close yet
+					zombies = append(zombies, w.w)
+					r.Hit("probe.closed-watch-kept-open-by-its-owner")
+				} else {
+					w.w.Close()
+				}
 				w.w = nil
 				r.Hit("probe.watch-closed-by-restore")
 			}
